@@ -184,3 +184,10 @@ func H_C16_repeated_calls() {
 	verifAssert(!p2 && out2 == refIndent(hStringAny(c), n2), "a later FormatString is the canonical layout of the current content for the indent of that call")
 	verifReach("end")
 }
+
+// acyclic trees in which the same container instance is reachable twice
+func H_C16_shared_child() {
+	n := []int{0, 3}[nondetIntRange(0, 1)]
+	hCheckLayout(hDiamond(), n)
+	verifReach("end")
+}
